@@ -37,7 +37,12 @@ func (r Rec) String() string {
 }
 
 // IdleTimeout bounds every wait for lal to consume input.
-var IdleTimeout = 20 * time.Second
+var IdleTimeout = 30 * time.Second
+
+// DeliverTimeout bounds the wait for data lal has already queued for a
+// consumer to be decoded by it.  Healthy delivery takes milliseconds; the bound
+// is generous so that a heavily loaded machine does not turn into a violation.
+var DeliverTimeout = 30 * time.Second
 
 // ---------------------------------------------------------------------------
 // Publisher
@@ -77,6 +82,33 @@ func NewPublisher(s *inproc.Server, app, nameWithQuery string, chunkSize int) *P
 	// the session is attached once the server is back in Read
 	p.WaitIdle()
 	return p
+}
+
+// FlushNotifications pushes a sentinel through lal's single-worker notification
+// queue (an RTMP connect with a unique app name) and waits until the recorder
+// has seen it: every notification queued before has then been delivered.
+func FlushNotifications(s *inproc.Server, tag string) bool {
+	conn := s.RtmpConn()
+	c := rtmpref.NewClient(conn)
+	_ = conn.SetReadDeadline(time.Now().Add(IdleTimeout))
+	if err := c.Handshake(); err != nil {
+		return false
+	}
+	if err := c.Connect(tag, "rtmp://127.0.0.1/"+tag); err != nil {
+		return false
+	}
+	deadline := time.Now().Add(IdleTimeout)
+	for time.Now().Before(deadline) {
+		for _, e := range s.Notify.Events() {
+			if e.Kind == "rtmp_connect" && e.Stream == tag {
+				_ = conn.Close()
+				conn.WaitPeerDone(IdleTimeout)
+				return true
+			}
+		}
+		time.Sleep(200 * time.Microsecond)
+	}
+	return false
 }
 
 // WaitIdle blocks until lal has processed everything sent so far (or the
